@@ -219,7 +219,7 @@ Proof.
     constructor; cbn; [|apply (inv_sess s I)|apply (inv_reg s I)].
     intros k u X. apply alookup_aremove_some in X as [X _]. now apply (inv_users s I).
   - unfold get_user in E. repeat dmh E; injection E as <- <- <-; exact I.
-  - unfold list_users in E. repeat dmh E; injection E as <- <- <-; exact I.
+  - unfold list_keys in E. repeat dmh E; injection E as <- <- <-; exact I.
   - (* PutService *)
     unfold put_service in E. destruct (store_get (services s) id fp) as [g fp1].
     assert (forall reg1, (forall e m, alookup e reg1 = Some m -> md_entity m = e) ->
@@ -303,7 +303,7 @@ Theorem step_assertion s o fp s' rs fp' r a :
   authenticated s o a /\ registered s o a /\ exists n, fp' = skipn n fp /\ clean n fp.
 Proof.
   intros I E Hr Hb. destruct o; cbn [step] in E;
-    try (unfold put_user, del_user, get_user, list_users, put_service, del_service, put_shortcut, del_shortcut,
+    try (unfold put_user, del_user, get_user, list_keys, put_service, del_service, put_shortcut, del_shortcut,
                 get_sess, del_session in E; repeat dmh E; injection E as <- <- <-;
          repeat (destruct Hr as [<-|Hr]; [cbn in Hb; discriminate|]); destruct Hr).
   - (* Login never carries an assertion *)
@@ -344,7 +344,7 @@ Qed.
 Theorem step_one_reply s o fp : List.length (snd (fst (step' s o fp))) = if is_request o then 1%nat else 0%nat.
 Proof.
   destruct o; cbn [step is_request];
-    unfold put_user, del_user, get_user, list_users, put_service, del_service, put_shortcut, del_shortcut,
+    unfold put_user, del_user, get_user, list_keys, put_service, del_service, put_shortcut, del_shortcut,
            login, sso, launch, get_sess, del_session; repeat dm; reflexivity.
 Qed.
 
@@ -352,8 +352,8 @@ Qed.
 Theorem step_no_hash s o fp r u :
   In r (snd (fst (step' s o fp))) -> r_body r = BUser u -> u_hash u = empty_hash.
 Proof.
-  destruct o as [n pw pr|n|n| |id md|id|n sp|n|c|rq c|n c|id|id|dt|]; cbn [step].
-  1-8,12-15: unfold put_user, del_user, get_user, list_users, put_service, del_service, put_shortcut, del_shortcut,
+  destruct o as [n pw pr|n|n|cl|id md|id|n sp|n|c|rq c|n c|id|id|dt|]; cbn [step].
+  1-8,12-15: unfold put_user, del_user, get_user, list_keys, put_service, del_service, put_shortcut, del_shortcut,
            get_sess, del_session; repeat dm; cbn; intros Hr Hb;
            repeat (destruct Hr as [<-|Hr]; [cbn in Hb; try discriminate|]); try destruct Hr;
            try (injection Hb as <-; reflexivity).
@@ -410,7 +410,7 @@ Lemma step_log s o fp s' rs fp' x :
   step' s o fp = (s', rs, fp') -> In x (authlog s') -> In x (authlog s) \/ pw_auth_at s o (fst x) (snd x).
 Proof.
   intros E Hx. destruct o; cbn [step] in E;
-    try (unfold put_user, del_user, get_user, list_users, put_service, del_service, put_shortcut, del_shortcut,
+    try (unfold put_user, del_user, get_user, list_keys, put_service, del_service, put_shortcut, del_shortcut,
                 get_sess, del_session in E; repeat dmh E; injection E as <- <- <-; left; exact Hx).
   - unfold login in E. destruct (get_session verify s true c fp) as [[s1 r] fp1] eqn:G.
     assert (s' = s1) as -> by (destruct r as [rep|[se ck]]; now injection E as <- <- <-).
@@ -523,7 +523,7 @@ Proof.
     - apply get_session_inl in G as [-> _]. congruence.
     - apply get_session_inr in G as [(_ & _ & u & _ & _ & _ & _ & -> & _)|(_ & i & _ & _ & _ & _ & -> & _)]; [now apply (K u)|congruence]. }
   destruct o; cbn [step] in E;
-    try (unfold put_user, del_user, get_user, list_users, put_service, del_service, put_shortcut, del_shortcut, get_sess in E;
+    try (unfold put_user, del_user, get_user, list_keys, put_service, del_service, put_shortcut, del_shortcut, get_sess in E;
          repeat dmh E; injection E as <- <- <-; cbn in L'; congruence).
   - unfold login in E. destruct (get_session verify s true c fp) as [[s1 r] fp1] eqn:G.
     assert (s' = s1) as -> by (destruct r as [rep|[sx ck]]; now injection E as <- <- <-). eapply KG; eassumption.
@@ -560,7 +560,7 @@ Proof.
   intros I E.
   assert (forall parsed c fpa s1 r fp1, get_session verify s parsed c fpa = (s1, r, fp1) -> hash_origin s1) as KG.
   { intros parsed c fpa s1 r fp1 G n u L. apply get_session_users in G as (G & _). rewrite G in L. now apply (I n). }
-  destruct o as [n pw pr|n|n| |id md|id|n sp|n|c|rq c|n c|id|id|dt|]; cbn [step] in E.
+  destruct o as [n pw pr|n|n|cl|id md|id|n sp|n|c|rq c|n c|id|id|dt|]; cbn [step] in E.
   - unfold put_user in E.
     assert (forall h fpa, (h = empty_hash \/ exists p, h = hash p) ->
               (let '(ok, fp2) := store_mut fpa in
@@ -576,7 +576,7 @@ Proof.
   - unfold del_user in E. destruct (store_mut fp) as [[|] fp1]; injection E as <- <- <-; [|exact I].
     intros k u X. cbn in X. apply alookup_aremove_some in X as [X _]. now apply (I k).
   - unfold get_user in E. repeat dmh E; injection E as <- <- <-; exact I.
-  - unfold list_users in E. repeat dmh E; injection E as <- <- <-; exact I.
+  - unfold list_keys in E. repeat dmh E; injection E as <- <- <-; exact I.
   - unfold put_service in E. repeat dmh E; injection E as <- <- <-; exact I.
   - unfold del_service in E. repeat dmh E; injection E as <- <- <-; exact I.
   - unfold put_shortcut in E. repeat dmh E; injection E as <- <- <-; exact I.
